@@ -506,10 +506,17 @@ pub fn large_images(ctx: &Ctx, st: &mut Stats, prop: &'static str, chk: fn(&str,
             jobs.push((*t, d, small[idx % 4]));
             if !ctx.light {
                 jobs.push((*t, d, UHD));
+                // an odd count above 2^23: every curve in the thorough tier, a rotating quarter in the quick tier
+                if !ctx.quick() || idx % 4 == (ctx.seed % 4) as usize {
+                    jobs.push((*t, d, 2897 * 2897));
+                }
                 if !ctx.quick() {
                     jobs.push((*t, d, 4096 * 2160));
                     if idx % 3 == 0 {
                         jobs.push((*t, d, 7680 * 4320));
+                    }
+                    if idx % 3 == 1 {
+                        jobs.push((*t, d, 4097 * 4097));
                     }
                 }
             }
